@@ -106,6 +106,15 @@ package merkledag
 //@   ensures[cid_of_the_encoding] err == nil && called("invoke:Builder.Sum#0") ==> n.cached == res("invoke:Builder.Sum#0", 0)
 //@   site[hashes_the_cached_encoding] invoke:Builder.Sum : arg1 == n.encoded.encoded
 //@   ensures[returns_the_encoding] err == nil ==> n.encoded != nil && result0 == n.encoded.encoded
+// a copy shares neither the data bytes nor the link list with its origin (mutators work in place)
+//@ func (*ProtoNode).Copy
+//@   prop C11
+//@   arith int-assumed
+//@   requires n != nil
+//@   modifies nothing
+//@   ensures[own_link_list] typeis(result, "*ProtoNode") && (len(n.links) > 0 ==> fresh(arr(unbox(result, "*ProtoNode").links)))
+//@   ensures[own_data] len(n.data) > 0 ==> fresh(arr(unbox(result, "*ProtoNode").data))
+//@   ensures[no_cache_carried_over] unbox(result, "*ProtoNode").encoded == nil && unbox(result, "*ProtoNode").builder == n.builder
 //@ func (*ProtoNode).UnmarshalJSON
 //@   prop C11
 //@   arith int-assumed
